@@ -297,6 +297,8 @@ PROPS["C10"]["mc"] = {"quick": list(RADIX_Q), "thorough": list(RADIX_T)}
 PROPS["C11"]["mc"] = {"quick": [RADIX_Q[0]], "thorough": [RADIX_T[0], RADIX_T[2]]}
 PROPS["C18"]["mc"] = {"quick": [alg("NumAlgs.tla", "NumAlgs_fixed.cfg"), alg("NumAlgs.tla", "NumAlgs_old.cfg", expect_violation="NoOverflow")],
                       "thorough": [alg("NumAlgs.tla", "NumAlgs_fixed.cfg"), alg("NumAlgs.tla", "NumAlgs_fixed9.cfg", workers=10), alg("NumAlgs.tla", "NumAlgs_old.cfg", expect_violation="NoOverflow")]}
+PROPS["C09"]["mc"] = {"quick": [alg("CastAlgs.tla", "CastAlgs_%d.cfg" % i, workers=2) for i in (2, 4, 9, 11)],
+                      "thorough": [alg("CastAlgs.tla", "CastAlgs_%d.cfg" % i, workers=2) for i in range(1, 14)]}
 L2MC = {"dir": "mc", "module": "MC_L2.tla", "cfg": "MC_L2_b4.cfg", "workers": 6, "timeout": 3000}
 
 BEH_MODES = ["debug", "release"]
